@@ -40,11 +40,16 @@ static std::unique_ptr<GMGPolar> make(const mj::Value& c, bool reference)
     g->FMG_cycle(static_cast<MultigridCycleType>(kk(fkind)));
     bool ext = k["ext"].boolean(), xs = k["xs"].boolean();
     // the reference object owns both smoothers; the object under test is configured as a user would
+    // every second extrapolated case runs the object under test in the COMBINED strategy, with the smoother mode set as the
+    // switch of solve() would leave it (the cycles must look at the mode, not at the option)
+    const bool combined = ext && !reference && !k["fmg"].boolean() && (c["id"].num() % 2 == 0); // (solve() re-arms the mode before an FMG start-up)
     g->extrapolation(!ext ? ExtrapolationType::NONE
-                          : reference ? ExtrapolationType::COMBINED
+                          : (reference || combined) ? ExtrapolationType::COMBINED
                                       : (xs ? ExtrapolationType::IMPLICIT_EXTRAPOLATION : ExtrapolationType::IMPLICIT_FULL_GRID_SMOOTHING));
     g->maxIterations(0);
     g->setup();
+    if (combined)
+        GMGPolarVerifAccess::fgs(*g) = !xs;
     return g;
 }
 
@@ -274,7 +279,7 @@ int main(int argc, char** argv)
                 gmgpolar_verif::sink() = trace;
                 // the markers solve() would emit around one cycle
                 VERIF_EV("SolveEnter", "\"fgs\":%d,\"nu1\":%d,\"nu2\":%d,\"fmgIts\":0,\"fmgKind\":0,\"kind\":%d,\"extMode\":%d,\"fmg\":0",
-                         (int)A::fgs(*G), k["nu1"].num(), k["nu2"].num(), kk, ext ? 1 : 0);
+                         (int)A::fgs(*G), k["nu1"].num(), k["nu2"].num(), kk, ext ? (int)G->extrapolation() : 0);
                 VERIF_EV("CycleRun", "\"k\":0,\"kind\":%d,\"ext\":%d,\"fgs\":%d", kk, ext ? 1 : 0, (int)A::fgs(*G));
                 A::cycle(*G, kk, ext, 0, gl[0].solution(), gl[0].rhs(), gl[0].residual());
                 VERIF_EV("CycleDone", "\"k\":1");
